@@ -270,6 +270,56 @@ def shard_longread(arg):
     return sh
 
 
+SHAPES = ["object", "falsy", "len0", "bound", "partial", "lambda"]
+
+
+def shaped(src, shape):
+    """the same entropy source handed over as another kind of callable; any
+    callable is a legitimate source, whatever its truth value or length"""
+    import functools
+    if shape == "object":
+        return src
+    if shape == "falsy":
+        class Falsy(object):
+            def __call__(self, n):
+                return src(n)
+
+            def __bool__(self):
+                return False
+        return Falsy()
+    if shape == "len0":
+        class Pool0(object):           # e.g. a byte pool that reports 0 left
+            def __call__(self, n):
+                return src(n)
+
+            def __len__(self):
+                return 0
+        return Pool0()
+    if shape == "bound":
+        return src.__call__
+    if shape == "partial":
+        return functools.partial(src)
+    if shape == "lambda":
+        return lambda n: src(n)
+    raise ValueError(shape)
+
+
+def shape_case(util, n, a1, shape):
+    """randrange is the same function of the stream for every callable shape"""
+    r1 = run_randrange(util, n, [a1])
+    s = Script([a1])
+    try:
+        v = util.randrange(n, shaped(s, shape))
+        got = ("value", v, len(s.calls))
+    except Exhausted as e:
+        got = ("need", e.size, len(s.calls) - 1)
+    except Exception as e:
+        got = ("raises", "%s: %s" % (type(e).__name__, e), len(s.calls))
+    if got != r1:
+        return ("callable-shape:" + shape, r1, got)
+    return None
+
+
 class Sha(object):
     """deterministic infinite stream sha256(seed || ctr), counts bytes"""
 
@@ -288,7 +338,7 @@ class Sha(object):
         return out
 
 
-def api_case(rec, seed, digest):
+def api_case(rec, seed, digest, shape="object"):
     """generate a key then sign on ONE stream; compare with randrange run
     twice on an identical stream; recover the nonce from the signature."""
     from ecdsa import util
@@ -301,12 +351,13 @@ def api_case(rec, seed, digest):
     v1 = util.randrange(n, ref_stream)
     v2 = util.randrange(n, ref_stream)
     s = Sha(seed)
+    src = shaped(s, shape)
     try:
-        sk = SigningKey.generate(env.curve, entropy=s)
+        sk = SigningKey.generate(env.curve, entropy=src)
         d = int(sk.privkey.secret_multiplier)
         used_by_keygen = s.consumed
         try:
-            r, sg = sk.sign_digest(digest, entropy=s, allow_truncate=True,
+            r, sg = sk.sign_digest(digest, entropy=src, allow_truncate=True,
                                    sigencode=lambda r, s_, o: (int(r), int(s_)))
         except RSZeroError:
             r = None
@@ -353,6 +404,17 @@ def shard_api(arg):
                              bad[1], bad[2])
             else:
                 sh.hist["api-ok"] += 1
+        for shape in SHAPES[1:]:
+            sh.n += 1
+            sh.nt += 1
+            bad = api_case(rec, seed, digests[0], shape)
+            if bad:
+                sh.hist["fail:" + bad[0]] += 1
+                sh.violation("api", bad[0],
+                             dict(rec=rec, seed=seed, digest=digests[0],
+                                  shape=shape), bad[1], bad[2])
+            else:
+                sh.hist["api-ok-shape:" + shape] += 1
     sh.extra["executions"] = len(seeds) * len(digests)
     sh.sample(dict(curve=[rec["p"], rec["a"], rec["b"]], seed=seeds[0].hex(),
                    digest=digests[0].hex(), sequence="generate; sign_digest on "
@@ -464,6 +526,16 @@ def shard_fresh(arg):
         step = max(1, len(ans) // 24)
         sub = ans[::step]
         for a1 in sub:
+            for shape in SHAPES[1:]:
+                sh.n += 1
+                sh.nt += 1
+                bad = shape_case(util, n, a1, shape)
+                if bad:
+                    sh.hist["fail:" + bad[0]] += 1
+                    sh.violation("shape", bad[0], dict(n=n, a1=a1, shape=shape),
+                                 bad[1], bad[2])
+                else:
+                    sh.hist["callable-shape-ok"] += 1
             for a2 in sub:
                 sh.n += 1
                 sh.nt += 1
@@ -605,7 +677,10 @@ def replay(check, case):
                         observed=v["observed"])
         return None
     if check == "api":
-        bad = api_case(case["rec"], case["seed"], case["digest"])
+        bad = api_case(case["rec"], case["seed"], case["digest"],
+                       case.get("shape", "object"))
+    elif check == "shape":
+        bad = shape_case(util, case["n"], case["a1"], case["shape"])
     elif check == "fresh":
         bad = fresh_bytes_case(util, case["n"], case["a1"], case["a2"])
     elif check == "default":
